@@ -330,6 +330,10 @@ def binnedCounts (b : Nat) (sizes : List Nat) (pts : List (Nat × Nat)) : List (
   toDict (nBins b sizes)
     ((List.range (total (nBins b sizes))).map (fun g => (pts.filter (fun x => binIndex b sizes x.1 x.2 == g)).length))
 
+/-- `BinnedGenome.count` with its validation (repair 5922e40): a position outside its chromosome raises -/
+def binnedChecked (b : Nat) (sizes : List Nat) (pts : List (Nat × Nat)) : Option (List (List Nat)) :=
+  if pts.all (fun x => decide (x.1 < sizes.length) && decide (x.2 < size sizes x.1)) then some (binnedCounts b sizes pts) else none
+
 /-- specification: for every chromosome, per bin, the number of that chromosome's own locations in the bin -/
 def specBinned (b : Nat) (sizes : List Nat) (pts : List (Nat × Nat)) : List (List Nat) :=
   (List.range sizes.length).map (fun c =>
